@@ -333,3 +333,45 @@ fn b_exec_path_b3() {
     }
     assert!(r.is_err());      // a failed lookup is an error, never "Ok" (nothing was executed)
 }
+
+// ---- C06 (bounded: 2 strings of at most 2 bytes): CVec::new builds a NULL-terminated table whose i-th pointer points at the bytes of
+// the i-th string followed by NUL; libc_exec hands exactly these tables to execv / execve (execve iff an environment was given)
+#[kani::proof]
+#[kani::stub(crate::posix::check_err, model_check_err)]
+#[kani::unwind(5)]
+fn b_cvec_exec_b2() {
+    let a: [u8; 2] = kani::any();
+    let b: [u8; 2] = kani::any();
+    let (la, lb): (usize, usize) = (kani::any(), kani::any());
+    kani::assume(la <= 2 && lb <= 2);
+    let mut i = 0;
+    while i < 2 { kani::assume(a[i] != 0 && b[i] != 0); i += 1; }
+    let sa = OsStr::from_bytes(&a[..la]);
+    let sb = OsStr::from_bytes(&b[..lb]);
+    let v = CVec::new(&[sa, sb]).unwrap();
+    let t = v.as_c_vec();
+    unsafe {
+        assert!(!(*t).is_null() && !(*t.add(1)).is_null() && (*t.add(2)).is_null());
+        let p0 = *t as *const u8;
+        let p1 = *t.add(1) as *const u8;
+        let mut k = 0;
+        while k < la { assert!(*p0.add(k) == a[k]); k += 1; }
+        assert!(*p0.add(la) == 0);
+        k = 0;
+        while k < lb { assert!(*p1.add(k) == b[k]); k += 1; }
+        assert!(*p1.add(lb) == 0);
+    }
+    let with_env: bool = kani::any();
+    let envvec = if with_env { Some(CVec::new(&[sb]).unwrap()) } else { None };
+    let envp = envvec.as_ref().map(|e| e.as_c_vec());
+    let prep = PrepExec { cmd: OsString::from("x"), argvec: v, envvec, search_path: None, prealloc_exe: Vec::new() };
+    unsafe { m::EXEC_CALLS = 0; }
+    let exe = [b'x', 0u8];
+    let r = prep.libc_exec(&exe);
+    unsafe {
+        assert!(r.is_err() && m::EXEC_CALLS == 1);
+        assert!(m::EXEC_PATH as *const u8 == exe.as_ptr() && m::EXEC_ARGV == t);
+        assert!(m::EXEC_KIND == if with_env { 2 } else { 1 });
+        if with_env { assert!(m::EXEC_ENVP == envp.unwrap()); }
+    }
+}
